@@ -118,6 +118,8 @@ fn main() -> Result<(), anyhow::Error> {
                     break;
                 }
             }
+            // A coordinate tuple has at most 4 elements: Ignore any excess columns
+            args.truncate(4);
             let n = args.len();
 
             // Empty line
